@@ -401,9 +401,24 @@ func runC05(rc *RunCtx) {
 			if l.ns != "" && nsSealed {
 				continue
 			}
+			// a quarter of the renewals meet a storage error when the lease record
+			// is written: the renewal fails, the lease keeps its recorded expiry -
+			// and must still be revoked when THAT passes (checked at the end)
+			renewFault := l.ns == "" && tp.Pick(4) == 0
+			if renewFault {
+				disk.FailPrefix, disk.FailOps, disk.FailNth = "sys/expire/id/", "put tx-put", 1
+			}
+			hitsBefore := disk.FailHits
 			resp, err := h.Do("renew", Req{Op: logical.UpdateOperation, Path: "sys/leases/renew", Token: h.Root, NS: l.ns, Data: map[string]any{"lease_id": l.id, "increment": secs(inc)}})
+			disk.FailNth = 0
 			ok := err == nil && resp != nil && !resp.IsError() && resp.Secret != nil
-			note("renew %s%s +%s -> ok=%v", l.ns, l.secID, inc, ok)
+			if disk.FailHits > hitsBefore {
+				s.Faults["err-na"]++
+				if !ok {
+					s.Probe("renewal_failed_on_lease_write")
+				}
+			}
+			note("renew %s%s +%s -> ok=%v (lease write fault: %v)", l.ns, l.secID, inc, ok, disk.FailHits > hitsBefore)
 			expired := time.Now().After(l.expire)
 			_, _, irr, _, _ := vault.VerifStoredLease(h.Core, storedKey(l))
 			if ok && (expired || !l.renewable || irr) {
@@ -491,9 +506,21 @@ func runC05(rc *RunCtx) {
 			if l.ns != "" && nsSealed {
 				continue
 			}
+			trenewFault := l.ns == "" && tp.Pick(4) == 0
+			if trenewFault {
+				disk.FailPrefix, disk.FailOps, disk.FailNth = "sys/expire/id/", "put tx-put", 1
+			}
+			thitsBefore := disk.FailHits
 			resp, err := h.Do("trenew", Req{Op: logical.UpdateOperation, Path: "auth/token/renew", Token: h.Root, NS: l.ns, Data: map[string]any{"token": l.id, "increment": secs(inc)}})
+			disk.FailNth = 0
 			ok := err == nil && resp != nil && !resp.IsError() && resp.Auth != nil
-			note("token renew %s +%s -> ok=%v", l.accessor, inc, ok)
+			if disk.FailHits > thitsBefore {
+				s.Faults["err-na"]++
+				if !ok {
+					s.Probe("renewal_failed_on_lease_write")
+				}
+			}
+			note("token renew %s +%s -> ok=%v (lease write fault: %v)", l.accessor, inc, ok, disk.FailHits > thitsBefore)
 			expired := time.Now().After(l.expire.Add(slack))
 			if ok && (expired || !l.renewable) {
 				viol("renewed-unrenewable-lease", map[string]any{"expired": expired, "renewable": l.renewable, "irrevocable": false}, "renew of token %s succeeded although expired=%v renewable=%v", l.accessor, expired, l.renewable)
